@@ -182,6 +182,10 @@ class TG:
     def post(self, ctx, inp):
         """called once with the finished Input: may add #[repr], discriminants, ... (mutates inp)"""
         return None
+    def shape(self, ctx, what, value):
+        """may bias a shape decision of the case generator (what: kind | fkind | nvariants | vkind |
+        nfields | ftype); must draw from ctx.rng only; default: leave it"""
+        return value
 
 class G_PartialEq(TG):
     name = 'PartialEq'
@@ -225,7 +229,7 @@ PATH_FORM_NAMES = ['p(v)', 'p=v', 'p="v"', 'p("v")']
 class G_Clone(TG):
     """Clone: type-level flag / bound; field-level method (structs without Copy, enums); unions: nothing"""
     name = 'Clone'
-    def shape(self, ctx):
+    def shape_name(self, ctx):
         return ctx.kind + ('+Copy' if 'Copy' in ctx.traits else '')
     def type_meta(self, ctx):
         r, sp = ctx.rng, ctx.sp
@@ -239,11 +243,11 @@ class G_Clone(TG):
         if own_fault(ctx, 0.04):
             ctx.fault = 'clone_type_bad@type'
             k = r.randrange(5)
-            note(ctx, 'Clone', 'type', self.shape(ctx), 'fault', k)
+            note(ctx, 'Clone', 'type', self.shape_name(ctx), 'fault', k)
             return ['Clone(method(m))', 'Clone(ignore)', 'Clone = true', 'Clone(bound(T: Clone), method = "m")',
                     'Clone(bound = 3)'][k]
         form = 'flag' if b is None else ('nv' if ' = ' in b else 'list')
-        note(ctx, 'Clone', 'type', self.shape(ctx), 'bound:' + mode, form)
+        note(ctx, 'Clone', 'type', self.shape_name(ctx), 'bound:' + mode, form)
         return trait_with_params(sp, 'Clone', [b])
     def variant_meta(self, ctx, variant):
         r, sp = ctx.rng, ctx.sp
@@ -262,7 +266,7 @@ class G_Clone(TG):
         r, sp = ctx.rng, ctx.sp
         copy = 'Copy' in ctx.traits
         place = 'union' if ctx.kind == 'union' else \
-                ('%s/%s' % (self.shape(ctx), 'named' if field.named else 'tuple'))
+                ('%s/%s' % (self.shape_name(ctx), 'named' if field.named else 'tuple'))
         allowed = ctx.kind == 'enum' or (ctx.kind == 'struct' and not copy)
         c, c2 = r.random(), r.random()
         m = pick(r, METHOD_PATHS)
@@ -1332,6 +1336,404 @@ class G_Default(TG):
         inp.reach = ctx.notes.get('reach', [])
 
 GENS['Default'] = G_Default()
+# ---------------------------------------------------------------- Deref / DerefMut / Into
+import re
+from rlex import lex as _lex_ty, flat as _flat_ty
+
+def reach(ctx, *what):
+    """branch-reach bookkeeping (read by tools/reach_derefinto.py)"""
+    ctx.notes.setdefault('reach', []).append(tuple(what))
+
+def norm_type(ty):
+    """python twin of into/common.rs:to_hash_type on flat tokens: `&['a] [mut]`* T  ->  &'static T"""
+    toks = _flat_ty(_lex_ty(ty))
+    is_ref = False
+    while toks and toks[0] == '&':
+        is_ref = True
+        toks = toks[1:]
+        if toks and toks[0] == "'":
+            toks = toks[2:]
+        if toks and toks[0] == 'mut':
+            toks = toks[1:]
+    return tuple((['&', "'", 'static'] if is_ref else []) + toks)
+
+# field types beyond PLAIN_TYPES: references (plain, nested, mutable, without lifetime), generic
+# arguments, tuples, arrays, slices, raw pointers
+EXTRA_FIELD_TYPES = ['&u8', '&mut u8', "&'static mut [u8]", '&&u8', "&'static &'static str", '& & mut u16',
+                     'Vec<Vec<u8>>', "Option<&'static str>", '(u8,)', "(&'static str, u8)",
+                     "[&'static str; 2]", '[u8]', '*const u8', '*mut Vec<u8>',
+                     '::std::collections::HashMap<u8, Vec<u8>>', '(u8)', 'u16', 'u16', 'u8', 'u8', 'String',
+                     "Cow<'static, str>", 'Result<u8, ()>', '&String', "&'static Vec<u8>", '&[u8; 3]', '&(u8, i16)',
+                     # bare fn, trait objects, qualified paths, macros (passed through as tokens by the handlers)
+                     'fn(u8) -> u8', 'Box<dyn Fn(u8) -> u8>', "&'static dyn ::core::fmt::Debug",
+                     "Box<dyn ::core::fmt::Debug + Send + 'static>", '<Vec<u8> as IntoIterator>::Item',
+                     "for<'x> fn(&'x u8) -> &'x u8", 'unsafe extern "C" fn(*const u8) -> usize',
+                     '&mut dyn FnMut(u8)', 'impl Copy', 'dyn A + B', 'my_ty!(u8)', "&'static (dyn A + Sync)"]
+
+def extra_field_type(ctx):
+    r = ctx.rng
+    opts = list(EXTRA_FIELD_TYPES)
+    for t in ctx.type_params:
+        opts += ['&%s' % t, '&mut %s' % t, '&&%s' % t, '(%s, u8)' % t, '[%s]' % t, 'Box<%s>' % t,
+                 '<%s as IntoIterator>::Item' % t, 'Box<dyn Fn(%s) -> %s>' % (t, t), 'fn(&%s)' % t]
+        for l in ctx.lifetimes:
+            opts += ["&'%s &'%s %s" % (l, l, t), "Option<&'%s %s>" % (l, t), "&'%s [%s]" % (l, t)]
+    return pick(r, opts)
+
+class FieldPicking(TG):
+    """traits that designate one field per struct / variant: bias the shapes towards the ones the
+    handlers accept (no union, no empty enum, no unit variant, at least one field)"""
+    def shape(self, ctx, what, value):
+        r = ctx.rng
+        if what == 'kind' and value == 'union':
+            return pick(r, ['struct', 'enum']) if r.random() < 0.85 else value
+        if what == 'fkind' and value == 'unit':
+            return pick(r, ['named', 'unnamed']) if r.random() < 0.8 else value
+        if what == 'nvariants' and value == 0:
+            return 1 + r.randrange(3) if r.random() < 0.85 else value
+        if what == 'vkind' and value == 'unit':
+            return pick(r, ['named', 'unnamed']) if r.random() < 0.93 else value
+        if what == 'nfields' and value == 0:
+            return 1 + r.randrange(3) if r.random() < 0.9 else value
+        if what == 'ftype':
+            return extra_field_type(ctx) if r.random() < 0.3 else value
+        return value
+
+def educe_noise(ctx, inp):
+    """once per case, rarely: an `educe` attribute that is not a list (`#[educe]`, `#[educe = ".."]`) on a
+    field or variant - the handlers skip those - or, as a fault, on the type (refused by lib.rs)"""
+    if ctx.notes.get('educe_noise_done'):
+        return
+    ctx.notes['educe_noise_done'] = True
+    r = ctx.rng
+    if r.random() >= 0.05:
+        return
+    a = pick(r, [Attr('educe', 'path'), Attr('educe', 'nv', '"Deref"'), Attr('educe', 'nv', '1')])
+    items = [f for f in inp.fields] + [v for v in inp.variants] + [f for v in inp.variants for f in v.fields]
+    if ctx.want_fault and ctx.fault is None and r.random() < 0.3:
+        inp.attrs.insert(r.randrange(len(inp.attrs) + 1), a)
+        ctx.fault = 'educe_not_list@type'
+        reach(ctx, 'noise', 'educe-not-list', 'type')
+    elif items:
+        it = pick(r, items)
+        it.attrs.insert(r.randrange(len(it.attrs) + 1), a)
+        reach(ctx, 'noise', 'educe-not-list', 'field-or-variant')
+
+def container_key(field):
+    return ('v', id(field.variant)) if field.variant is not None else ('s',)
+
+class G_Deref(FieldPicking):
+    name = 'Deref'
+    def type_meta(self, ctx):
+        r = ctx.rng
+        reach(ctx, self.name, 'type', ctx.kind, 'flag')
+        # reserve the case's one invalid construct early (before the generic apply_fault runs)
+        if ctx.want_fault and ctx.fault is None and ctx.kind != 'union' and r.random() < 0.25:
+            mode = pick(r, ['none', 'multi', 'form', 'none', 'multi'])
+            ctx.notes[(self.name, 'fault')] = mode
+            ctx.fault = '%s_%s@field' % (self.name, mode)
+        return self.name
+    def plan(self, ctx, field):
+        """decided at the first field of every struct / variant: the set of flagged indices"""
+        r = ctx.rng
+        n = field.count
+        mode = 'ok'
+        pending = ctx.notes.get((self.name, 'fault'))
+        if pending is not None and (n > 1 or pending == 'form') and r.random() < 0.7:
+            mode = pending
+            ctx.notes[(self.name, 'fault')] = None
+            ctx.notes[(self.name, 'fault-applied')] = True
+        chosen = r.randrange(n)
+        if self.name == 'DerefMut':
+            other = ctx.notes.get(('Deref',) + container_key(field))
+            if other is not None and other['chosen'] is not None and r.random() < 0.7:
+                chosen = other['chosen']
+        if n == 1:
+            flagged = {0} if r.random() < 0.35 else set()
+        elif mode == 'none':
+            flagged, chosen = set(), None
+        elif mode == 'multi':
+            flagged = set(r.sample(range(n), 2 + (r.random() < 0.3 and n > 2)))
+        else:
+            flagged = {chosen}
+        form_at = r.randrange(n) if mode == 'form' else None
+        where = 'struct' if field.variant is None else 'variant'
+        reach(ctx, self.name, where, 'named' if field.named else 'tuple',
+              'sole' if n == 1 else 'many', mode, 'flagged' if flagged else 'unflagged')
+        return dict(flagged=flagged, chosen=chosen, form_at=form_at)
+    def field_meta(self, ctx, field):
+        if ctx.kind == 'union':
+            return None
+        key = (self.name,) + container_key(field)
+        if field.index == 0:
+            ctx.notes[key] = self.plan(ctx, field)
+        p = ctx.notes[key]
+        if p['form_at'] == field.index:
+            bad = pick(ctx.rng, ['%s = true', '%s()', '%s(x)', '%s(ignore)', '%s = "x"', '%s(bound(*))'])
+            reach(ctx, self.name, 'field-form', bad)
+            return bad % self.name
+        if field.index in p['flagged']:
+            if p['chosen'] == field.index:
+                reach(ctx, self.name, 'designated', 'ref' if field.ty.lstrip().startswith('&') else 'value',
+                      'index>0' if field.index > 0 else 'index0')
+            return self.name
+        return None
+    def post(self, ctx, inp):
+        educe_noise(ctx, inp)
+        if (self.name, 'fault') in ctx.notes and not ctx.notes.get((self.name, 'fault-applied')):
+            if ctx.fault is not None and ctx.fault.startswith(self.name + '_'):
+                ctx.fault = None       # the reserved fault found no struct / variant to sit in
+
+class G_DerefMut(G_Deref):
+    name = 'DerefMut'
+
+INTO_POOL = ['u8', 'u16', 'i64', 'String', 'Vec<u8>', 'Option<u8>', 'Option<Vec<u8>>', '(u8, i16)', '(u8,)', '()',
+             '[u8; 3]', '[u8]', '&str', "&'static str", '&[u8]', '&mut u8', '&&u8', 'Box<[u8]>',
+             '::std::string::String', '::core::primitive::u8', 'Vec<Vec<u8>>', 'HashMap<u8, Vec<u8>>',
+             "Cow<'static, str>", '*const u8', 'Result<u8, ()>', 'Vec::<u8>', '[Option<u8>; 2]',
+             '(u8, (u16, Vec<u8>))', 'Self', 'crate::X', 'super::Y<u8>', '!', '_', 'Foo<3>', 'Foo<-1>',
+             'Foo<{ 1 + 2 }>', 'Foo<true>', "Foo<'static>", 'Iter<Item = u8>', 'Vec<u8,>', '(u8)', '[u8; LEN]',
+             '[u8; 0x10]', "&'static &'static [u8]", 'u8', 'u16', 'String',
+             'fn(u8) -> u8', 'Box<dyn Fn(u8) -> u8>', "&'static dyn ::core::fmt::Debug", 'PhantomData<fn() -> u8>',
+             "Box<dyn ::core::fmt::Debug + Send + 'static>", '<Vec<u8> as IntoIterator>::Item',
+             "for<'x> fn(&'x u8) -> &'x u8", 'extern "C" fn(a: u8, _: u16)', 'dyn A + B', 'A + B +', 'impl Copy + Send',
+             "'static + A", '(A) + B', '(?Sized) + A', 'my_ty!(u8)', 'a::m![u8; 3]', '<u8>::A', '&dyn Fn(u8,) -> (u8)']
+
+def add_meta(ctx, attrs, text):
+    """add one meta to an item: into an existing #[educe(...)] (either end) or as a new attribute"""
+    sp = ctx.sp
+    ed = [a for a in attrs if a.path == 'educe' and a.kind == 'list']
+    if ed and sp.random() < 0.5:
+        a = pick(sp, ed)
+        args = a.args.strip()
+        if args == '':
+            a.args = text
+        elif sp.random() < 0.5:
+            a.args = text + ', ' + args
+        elif args.endswith(','):
+            a.args = args + ' ' + text
+        else:
+            a.args = args + ', ' + text
+    else:
+        if sp.random() < 0.1:
+            text += ','
+        attrs.insert(sp.randrange(len(attrs) + 1), educe(text))
+
+_REF_RE = re.compile(r"^&\s*('[A-Za-z_]\w*\s*)?(mut\b\s*)?")
+def respell_ref(r, ty, lifetimes):
+    """another type with the same HashType key (only references have several)"""
+    ty = ty.strip()
+    if not ty.startswith('&'):
+        return ty
+    inner = ty
+    while inner.startswith('&'):
+        inner = _REF_RE.sub('', inner, count=1)
+    lt = pick(r, ['', "'static ", "'static mut ", 'mut '] + ["'%s " % l for l in lifetimes])
+    return '&' + lt + inner
+
+class G_Into(FieldPicking):
+    name = 'Into'
+    def into_list(self, ctx, ty, params):
+        sp = ctx.sp
+        params = [p for p in params if p is not None]
+        body = ', '.join([ty] + params)
+        if sp.random() < 0.12:
+            body += ','
+        if sp.random() < 0.06:
+            return pick(sp, ['Into[%s]', 'Into{%s}']) % body
+        return 'Into(%s)' % body
+    def field_into(self, ctx, ty, with_method):
+        r, sp = ctx.rng, ctx.sp
+        params = []
+        if with_method:
+            params.append(sp_path_param(sp, 'method', pick(r, METHOD_PATHS)))
+        return self.into_list(ctx, ty, params)
+    def type_meta(self, ctx):
+        r = ctx.rng
+        # reserve the case's one invalid construct early (before the generic apply_fault runs);
+        # the metas themselves are added by `post`, when the field types are known
+        if ctx.want_fault and ctx.fault is None and ctx.kind != 'union' and r.random() < 0.5:
+            k = pick(r, ['multi', 'no_field', 'no_field2', 'mixed', 'mixed', 'no_impl', 'reset_type', 'reset_field',
+                         'form_type', 'form_type', 'form_field', 'form_field', 'variant'])
+            ctx.notes['into_fault'] = k
+            ctx.fault = 'Into_' + k
+        return None
+    def post(self, ctx, inp):
+        r, sp = ctx.rng, ctx.sp
+        educe_noise(ctx, inp)
+        if inp.kind == 'enum':
+            containers = [(v, v.fields) for v in inp.variants]
+        else:
+            containers = [(None, inp.fields)]
+        pool = list(INTO_POOL)
+        for t in ctx.type_params:
+            pool += [t, 'Vec<%s>' % t, 'Option<%s>' % t, '&%s' % t, '(%s, u8)' % t]
+            for l in ctx.lifetimes:
+                pool += ["&'%s %s" % (l, t), "&'%s mut %s" % (l, t)]
+            for n in ctx.consts:
+                pool += ['[%s; %s]' % (t, n)]
+        for l in ctx.lifetimes:
+            pool += ["&'%s str" % l]
+        fault = ctx.notes.get('into_fault')
+        applied = False
+        big = [fs for _, fs in containers if len(fs) >= 2]
+        if fault == 'no_field2' and big:
+            # two same-typed candidates and no marker: the handler refuses to choose
+            fs = pick(r, big)
+            i, j = r.sample(range(len(fs)), 2)
+            fs[j].ty = fs[i].ty
+        field_types = [f.ty for _, fs in containers for f in fs]
+        # ---- targets
+        k = pick(r, [1, 1, 1, 2, 2, 3])
+        if fault == 'mixed':
+            k = max(k, 2)
+        targets = []
+        if fault == 'no_field2' and big:
+            targets.append(fs[i].ty)
+        for _ in range(k):
+            t = pick(r, field_types) if field_types and r.random() < 0.6 else pick(r, pool)
+            if r.random() < 0.2:
+                t = respell_ref(r, t, ctx.lifetimes)
+            if norm_type(t) in [norm_type(x) for x in targets]:
+                continue
+            targets.append(t)
+        if fault == 'mixed' and len(targets) < 2:
+            targets.append('Foo<3>' if norm_type(targets[0]) != norm_type('Foo<3>') else 'Foo<-1>')
+        type_metas = []
+        for t in targets:
+            mode, b = gen_bound(ctx)
+            reach(ctx, 'Into', 'type', inp.kind, 'bound:' + mode, 'ref' if t.startswith('&') else 'value')
+            type_metas.append(self.into_list(ctx, t, [b]))
+        if fault == 'reset_type':
+            t = pick(r, targets)
+            type_metas.append(self.into_list(ctx, respell_ref(r, t, ctx.lifetimes), []))
+            applied = True
+            reach(ctx, 'Into', 'fault', 'reset_type', 'ref' if t.startswith('&') else 'value')
+        elif fault == 'form_type':
+            bad = pick(r, ['Into', 'Into = u8', 'Into = "u8"', 'Into()', 'Into(5)', 'Into(u8 u16)', 'Into(u8, foo)',
+                           'Into(u8, method(m))', 'Into(u8, bound)', 'Into(u8, bound(*), bound = false)',
+                           'Into(u8; x)', 'Into(Vec<u8)', 'Into(u8, , )', 'Into(struct)', 'Into(, u8)',
+                           'Into(u8, bound = 1)', 'Into("u8")', 'Into(&)', 'Into([u8;])', 'Into((u8 u8))',
+                           'Into(a::struct)', 'Into(Vec<u8 u8>)', 'Into(*u8)', 'Into(try)', 'Into(u8, a::bound(*))',
+                           'Into(u8, bound(T))', 'Into(u8, bound = "T")', 'Into([u8 u8])', 'Into(-1)',
+                           'Into({ u8 })', 'Into(u8, bound(*) x)', 'Into(Foo<-x>)', 'Into(a::<u8>::)',
+                           'Into(dyn)', "Into(dyn 'static)", "Into(&'a dyn A + B)", 'Into(fn(u8 u8))', 'Into(<T as A>)',
+                           'Into(impl)', 'Into(A + + B)', 'Into(fn)', "Into('a)", 'Into(A!)', 'Into(Vec<u8>!())',
+                           'Into((A) +)', 'Into(dyn ?for<\'a> A)', 'Into(fn() -> A + B)', 'Into(for fn())'])
+            if r.random() < 0.5:
+                type_metas.append(bad)
+            else:
+                type_metas.insert(0, bad)
+            applied = True
+            reach(ctx, 'Into', 'fault', 'form_type', bad)
+        if sp.random() < 0.5 and len(type_metas) > 1:
+            # several targets inside one attribute, in order
+            add_meta(ctx, inp.attrs, ', '.join(type_metas))
+        else:
+            for m in type_metas:
+                add_meta(ctx, inp.attrs, m)
+        # ---- fields
+        faulted = False
+        for v, fs in containers:
+            n = len(fs)
+            if n == 0:
+                reach(ctx, 'Into', 'container', 'empty')
+                continue
+            for ti, t in enumerate(targets):
+                key = norm_type(t)
+                same = [i for i, f in enumerate(fs) if norm_type(f.ty) == key]
+                spelled = respell_ref(r, t, ctx.lifetimes) if r.random() < 0.3 else t
+                flagged = []
+                if n == 1:
+                    if r.random() < 0.4:
+                        flagged = [0]
+                    how = 'sole'
+                else:
+                    do_multi = (fault == 'multi' and not faulted and r.random() < 0.6) or \
+                               (fault == 'mixed' and ti == 0 and faulted in (False, 'mixed'))
+                    do_none = (fault == 'no_field' and not faulted and r.random() < 0.6) or \
+                              (fault == 'no_field2' and not faulted and len(same) >= 2) or \
+                              (fault == 'mixed' and ti == 1 and faulted in (False, 'mixed'))
+                    if do_multi:
+                        flagged = r.sample(range(n), 2)
+                        faulted = 'mixed' if fault == 'mixed' else True
+                        applied = True
+                        how = 'multi'
+                    elif do_none and len(same) != 1:
+                        faulted = 'mixed' if fault == 'mixed' else True
+                        applied = True
+                        how = 'none(%d same-typed)' % min(len(same), 2)
+                    elif len(same) == 1 and r.random() < 0.6:
+                        how = 'by-type'
+                    else:
+                        flagged = [pick(r, same) if same and r.random() < 0.5 else r.randrange(n)]
+                        how = 'flagged(%d same-typed)' % min(len(same), 2)
+                for i in flagged:
+                    f = fs[i]
+                    with_method = r.random() < 0.3
+                    conv = 'method' if with_method else ('identity' if norm_type(f.ty) == key else 'into')
+                    reach(ctx, 'Into', 'field', inp.kind, 'named' if f.name is not None else 'tuple', how, conv,
+                          'index>0' if i > 0 else 'index0')
+                    add_meta(ctx, f.attrs, self.field_into(ctx, spelled, with_method))
+                if not flagged:
+                    f = fs[same[0]] if len(same) == 1 and n > 1 else fs[0]
+                    conv = 'identity' if norm_type(f.ty) == key else 'into'
+                    reach(ctx, 'Into', 'field', inp.kind, 'named' if f.name is not None else 'tuple', how, conv, '-')
+            if faulted == 'mixed':
+                faulted = True
+        all_fields = [f for _, fs in containers for f in fs]
+        if fault == 'no_impl' and all_fields:
+            f = pick(r, all_fields)
+            x = pick(r, [p for p in pool if norm_type(p) not in [norm_type(t) for t in targets]])
+            add_meta(ctx, f.attrs, self.field_into(ctx, x, r.random() < 0.3))
+            applied = True
+            reach(ctx, 'Into', 'fault', 'no_impl')
+        elif fault == 'reset_field' and all_fields:
+            f = pick(r, all_fields)
+            t = pick(r, targets)
+            add_meta(ctx, f.attrs, self.field_into(ctx, t, False))
+            add_meta(ctx, f.attrs, self.field_into(ctx, respell_ref(r, t, ctx.lifetimes), r.random() < 0.3))
+            applied = True
+            reach(ctx, 'Into', 'fault', 'reset_field', 'ref' if t.startswith('&') else 'value')
+        elif fault == 'form_field' and all_fields:
+            f = pick(r, all_fields)
+            t = pick(r, targets)
+            bad = pick(r, ['Into', 'Into = "%s"', 'Into(%s, bound(*))', 'Into(%s, method)', 'Into(%s, method = 1)',
+                           'Into(%s, method(m), method = "n")', 'Into(%s, ignore)', 'Into(%s, method(m) x)',
+                           'Into(%s method(m))', 'Into()', 'Into(%s, method("1"))', 'Into(%s, method = "")',
+                           'Into(%s, a::method(m))', 'Into(%s, method(m), ignore)', 'Into(%s, method(m::))',
+                           'Into(%s, method(struct))'])
+            add_meta(ctx, f.attrs, bad.replace('%s', t.replace('"', '\\"') if '"%s"' in bad else t))
+            applied = True
+            reach(ctx, 'Into', 'fault', 'form_field', bad)
+        elif fault == 'variant' and inp.kind == 'enum' and inp.variants:
+            v = pick(r, inp.variants)
+            bad = pick(r, ['Into', 'Into(%s)' % pick(r, targets), 'Into = 1', 'Into()'])
+            add_meta(ctx, v.attrs, bad)
+            applied = True
+            reach(ctx, 'Into', 'fault', 'variant', bad)
+        if fault is not None and not applied and ctx.fault == 'Into_' + fault:
+            ctx.fault = None           # the reserved fault found no place
+
+GENS['Deref'] = G_Deref()
+GENS['DerefMut'] = G_DerefMut()
+GENS['Into'] = G_Into()
+
+def shape_hook(ctx, what, value):
+    for t in ALL_TRAITS:
+        if t in ctx.traits and t in GENS:
+            value = GENS[t].shape(ctx, what, value)
+    return value
+
+def flatten_metas(metas):
+    """a hook may return several metas (a list) for one item"""
+    out = []
+    for m in metas:
+        if isinstance(m, (list, tuple)):
+            out.extend(m)
+        else:
+            out.append(m)
+    return out
 
 # ---------------------------------------------------------------- attribute assembly
 OTHER_ATTRS = [Attr('doc', 'nv', '" some docs"'), Attr('allow', 'list', 'dead_code'),
@@ -1407,9 +1809,9 @@ def gen_fields(ctx, n, named, variant=None):
     names = r.sample(FIELD_NAMES, n) if named else [None] * n
     fields = []
     for idx, nm in enumerate(names):
-        f = Field(nm, gen_type(ctx))
+        f = Field(nm, shape_hook(ctx, 'ftype', gen_type(ctx)))
         f.index, f.count, f.variant, f.named = idx, n, variant, named
-        metas = [GENS[t].field_meta(ctx, f) for t in ALL_TRAITS if t in ctx.traits and t in GENS]
+        metas = flatten_metas([GENS[t].field_meta(ctx, f) for t in ALL_TRAITS if t in ctx.traits and t in GENS])
         metas = apply_fault(ctx, 'field', metas, ctx.traits)
         f.attrs = assemble(ctx, metas)
         fields.append(f)
@@ -1438,25 +1840,26 @@ def gen_case(seed, spseed, modelled, want_fault=False, kinds=('struct', 'enum', 
     if ctx.kind == 'union' and any(not getattr(GENS[t], 'union_ok', True) for t in traits if t in GENS) \
             and len(kinds) > 1 and rng.random() < 0.85:
         ctx.kind = pick(rng, [k for k in kinds if k != 'union'])   # the trait refuses unions: keep them rare
+    ctx.kind = shape_hook(ctx, 'kind', ctx.kind)
     g = gen_generics(ctx)
-    type_metas = [GENS[t].type_meta(ctx) for t in traits]
+    type_metas = flatten_metas([GENS[t].type_meta(ctx) for t in traits])
     type_metas = apply_fault(ctx, 'type', type_metas, ctx.traits)
     name = pick(rng, ['S', 'Foo', 'r#Type', 'E1'])
     inp = Input(ctx.kind, name, generics=g)
     inp.attrs = assemble(ctx, type_metas, extra_attrs=True)
     if ctx.kind == 'struct':
-        inp.fkind = pick(rng, ['named', 'unnamed', 'unnamed', 'named', 'unit'])
-        n = 0 if inp.fkind == 'unit' else pick(rng, [0, 1, 1, 2, 2, 3, 4, 5])
+        inp.fkind = shape_hook(ctx, 'fkind', pick(rng, ['named', 'unnamed', 'unnamed', 'named', 'unit']))
+        n = 0 if inp.fkind == 'unit' else shape_hook(ctx, 'nfields', pick(rng, [0, 1, 1, 2, 2, 3, 4, 5]))
         inp.fields = gen_fields(ctx, n, inp.fkind == 'named')
     elif ctx.kind == 'enum':
-        nv = pick(rng, [0, 1, 1, 2, 2, 3, 3, 4])
+        nv = shape_hook(ctx, 'nvariants', pick(rng, [0, 1, 1, 2, 2, 3, 3, 4]))
         vnames = rng.sample(VARIANT_NAMES, nv)
         for vidx, vn in enumerate(vnames):
-            vk = pick(rng, ['unit', 'named', 'unnamed'])
+            vk = shape_hook(ctx, 'vkind', pick(rng, ['unit', 'named', 'unnamed']))
             v = Variant(vn, vk)
             v.index, v.count = vidx, nv
-            n = 0 if vk == 'unit' else pick(rng, [0, 1, 1, 2, 2, 3, 4])
-            metas = [GENS[t].variant_meta(ctx, v) for t in traits]
+            n = 0 if vk == 'unit' else shape_hook(ctx, 'nfields', pick(rng, [0, 1, 1, 2, 2, 3, 4]))
+            metas = flatten_metas([GENS[t].variant_meta(ctx, v) for t in traits])
             metas = apply_fault(ctx, 'variant', metas, ctx.traits)
             v.attrs = assemble(ctx, metas)
             v.fields = gen_fields(ctx, n, vk == 'named', variant=v)
